@@ -179,6 +179,15 @@ def make(cap, k, span, mode, reach=False, grid=False, period_us=1_000_000, halfg
         spanned = (EI(qe) - EI(qs) + PUS - 1) / PUS + 1  # slots touched by [qs, qe) incl. an unaligned straddle
         ex.check(z3.Or(z3.And(EI(qe) <= EI(qs), n == 0), z3.And(EI(qe) > EI(qs), z3.IntVal(n) <= spanned)),
                  f"window returned {n} slots: more than the query spans (or non-empty for an inverted query)")
+        # completeness: the window holds every covered slot between the query bounds rounded onto the slot grid
+        # (slots slot(start) .. slot(end) - 1, clamped to [oldest valid, newest]); an inverted or sub-slot query is empty
+        lo_slot = newest - (cap - 1) + valid_idx[0]
+        a = slot_of(qs)
+        b = slot_of(qe)
+        a = a if ex.branch(EI(a) >= EI(lo_slot)) else lo_slot
+        b = b if ex.branch(EI(b) <= EI(newest) + 1) else newest + 1
+        exp_n = (b - a) if (ex.branch(EI(qe) > EI(qs)) and ex.branch(EI(b) > EI(a))) else 0
+        ex.check(EI(exp_n) == n, f"window returned {n} slots, the query spans {exp_n} covered slots")
         if n:
             # element j is the reference content of slot s0 + j, where s0 = slot of max(start, oldest valid)
             oldest_us = (EI(newest) - (cap - 1) + valid_idx[0]) * PUS
